@@ -77,7 +77,8 @@ else:
             log.clear()
             try:
                 pkg = getattr(mod, fname).compile_function()
-                r[which] = {"ok": True, "terms": func_terms(pkg.modules[0], fname), "lookups": [list(x) for x in log]}
+                terms, outs = func_terms(pkg.modules[0], fname, want_outputs=True)
+                r[which] = {"ok": True, "terms": terms, "outputs": outs, "lookups": [list(x) for x in log]}
             except GuppyError as e:
                 r[which] = {"ok": False, "error": err_name(e), "lookups": [list(x) for x in log]}
             except Exception as e:  # noqa: BLE001
